@@ -404,6 +404,7 @@ def _reads_shard(_):
     path = os.path.join(tmp, "r.tdf")
     kinds = (R.T_EVENTS, R.T_DATA3D, R.T_EMG, R.T_FORCE3D, R.T_PLATDATA, R.T_PLATCAL, R.T_OPT)
     recs = [kdriver.known_record(t, 1 if t in (R.T_DATA3D, R.T_EMG, R.T_FORCE3D, R.T_PLATDATA) else 0) for t in kinds]
+    recs[1] = kdriver.big_record()      # the 3D block is ~840 KB (a cache only for large blocks would show here)
     with open(path, "wb") as f:
         f.write(R.build_file(14, recs))
     BT = n.block.BlockType
